@@ -17,6 +17,7 @@ DATA.ORIENT      fast engine result is 2-D by construction (ndmin=2) or oriented
 WR.WRAP-TOKENS   the TextWrapper breaks only at blanks
 """
 import ast
+import re
 
 from sa.astutil import ordn
 
@@ -392,6 +393,44 @@ def rule_null_write(ctx):
                         problems.append("NaN is written as str(%s), not the current ~Well NULL value" % arg)
                 ctx.check(not problems, "NULL.WRITE", site, fi, sub, "NaN samples are written as str(well['NULL'].value)",
                           "; ".join(problems))
+    # formatter slots: callables stored in one slot (a variable or the entries of one container) agree on NaN handling - a raw
+    # `<format>.__mod__` / `<format>.format` / NaN-blind lambda next to a NaN-aware formatter writes 'nan' for the columns it serves
+    def has_isnan(node):
+        return any(isinstance(c, ast.Call) and isinstance(c.func, ast.Attribute) and c.func.attr == "isnan" for c in ast.walk(node))
+    r = get_resolver(p)
+    for fi in write_family(p):
+        slots = {}
+        for sub in walk_shallow(fi.node):
+            if not (isinstance(sub, ast.Assign) and len(sub.targets) == 1):
+                continue
+            t, v = sub.targets[0], sub.value
+            base = t.value if isinstance(t, ast.Subscript) else t
+            if not isinstance(base, (ast.Name, ast.Attribute)):
+                continue
+            kind = None
+            if isinstance(v, ast.Attribute) and v.attr in ("__mod__", "format"):
+                kind = "raw"
+            elif isinstance(v, ast.Lambda):
+                kind = "aware" if has_isnan(v) else ("raw" if any(isinstance(x, ast.BinOp) and isinstance(x.op, ast.Mod) for x in ast.walk(v)) else None)
+            elif isinstance(v, ast.Call):
+                tg = r.callees(fi, v)[0]
+                if tg and all(has_isnan(t_.node) for t_ in tg):
+                    kind = "aware"
+            elif isinstance(v, ast.Name) and v.id in fi.nested and has_isnan(fi.nested[v.id].node):
+                kind = "aware"
+            if kind:
+                slots.setdefault(ast.unparse(base), []).append((kind, sub))
+        for slot, entries in sorted(slots.items()):
+            kinds = {k for k, _ in entries}
+            if "aware" not in kinds:
+                continue
+            raw = [st for k, st in entries if k == "raw"]
+            ssite = "%s#formatter-slot(%s)" % (fi.qual, slot)
+            if raw:
+                ctx.bad("NULL.WRITE", ssite, fi, raw[0], "`%s` stores a bare format operation next to NaN-aware formatters in the same slot: "
+                        "the columns it serves write NaN as 'nan' instead of the NULL value" % unparse(raw[0]))
+            else:
+                ctx.ok("NULL.WRITE", ssite, fi, entries[0][1], "every formatter stored in %s handles NaN (%d stores)" % (slot, len(entries)))
     if not found:
         ctx.bad("NULL.WRITE", site, fw, fw.node, "the data formatter has no isnan branch: NaN samples are written as 'nan' "
                 "and never come back as NaN through the NULL marker")
@@ -729,6 +768,150 @@ def rule_wrap_count(ctx):
     ctx.floor("DATA.WRAP-COUNT", 2)
 
 
+# ------------------------------------------------------------------------------------------------ DATA.SAMPLE-REL
+
+def rule_sample_window(ctx):
+    """DATA.SAMPLE-REL: the size of the sample the sniffer looks at is counted from the start of the data section.  A limit test
+    that compares a quantity derived from the section's *absolute* line number (the `line_nos` argument) with a constant makes the
+    sample - and with it the column count and the run-on-hyphen decision - depend on how many lines precede the section."""
+    p = ctx.p
+    fs = p.func(SNIFF)
+    params = fs.params()
+    pos = [x for x in params if "line" in x and x != "line_splitter"]
+    if not pos:
+        ctx.undecided("DATA.SAMPLE-REL", SNIFF + "#sample-limit", fs, fs.node, "the sniffer takes no line-number argument")
+        return
+    tainted = set(pos)
+    for _ in range(4):
+        for sub in walk_shallow(fs.node):
+            tg, val = None, None
+            if isinstance(sub, ast.Assign) and len(sub.targets) == 1:
+                tg, val = sub.targets[0], sub.value
+            elif isinstance(sub, ast.AugAssign):
+                tg, val = sub.target, sub.value
+            elif isinstance(sub, ast.For) and isinstance(sub.iter, ast.Call) and isinstance(sub.iter.func, ast.Name) and sub.iter.func.id == "enumerate":
+                start = sub.iter.args[1] if len(sub.iter.args) > 1 else next((k.value for k in sub.iter.keywords if k.arg == "start"), None)
+                if start is not None and isinstance(sub.target, ast.Tuple) and sub.target.elts:
+                    tg, val = sub.target.elts[0], start
+            if tg is None or val is None:
+                continue
+            if _absolute(val, tainted):
+                tainted |= set(target_names(tg))
+    n = 0
+    for sub in walk_shallow(fs.node):
+        if not isinstance(sub, ast.If) or not any(isinstance(x, ast.Break) for st in sub.body + sub.orelse for x in ast.walk(st)):
+            continue
+        for atom in ast.walk(sub.test):
+            if not (isinstance(atom, ast.Compare) and len(atom.ops) == 1 and isinstance(atom.ops[0], (ast.Gt, ast.GtE, ast.Lt, ast.LtE, ast.Eq))):
+                continue
+            sides = [atom.left, atom.comparators[0]]
+            consts = [x for x in sides if isinstance(x, ast.Constant) and isinstance(x.value, (int, float)) and not isinstance(x.value, bool)]
+            if len(consts) != 1:
+                continue
+            other = sides[1] if sides[0] is consts[0] else sides[0]
+            n += 1
+            site = "%s#sample-limit(%s)" % (SNIFF, unparse(atom, 40))
+            if _absolute(other, tainted):
+                ctx.bad("DATA.SAMPLE-REL", site, fs, atom, "`%s` compares a line number of the *file* with the sample size %r: how many "
+                        "lines of the data section are sampled (column count, run-on hyphen decision) depends on the number of lines "
+                        "in front of the section" % (unparse(atom), consts[0].value))
+            else:
+                ctx.ok("DATA.SAMPLE-REL", site, fs, atom, "the sample limit is tested on a count relative to the section start")
+    if n == 0:
+        ctx.undecided("DATA.SAMPLE-REL", SNIFF + "#sample-limit", fs, fs.node, "no `<count> >= <constant>` limit test with a break found in the sniffer")
+    ctx.floor("DATA.SAMPLE-REL", 1)
+
+
+def _absolute(e, tainted):
+    """does the value of e move with the absolute position of the section?  (a difference of two absolute quantities does not)"""
+    if isinstance(e, ast.Name):
+        return e.id in tainted
+    if isinstance(e, ast.Subscript):
+        return _absolute(e.value, tainted)
+    if isinstance(e, ast.BinOp) and isinstance(e.op, ast.Sub):
+        return _absolute(e.left, tainted) != _absolute(e.right, tainted)
+    if isinstance(e, ast.BinOp) and isinstance(e.op, ast.Add):
+        return _absolute(e.left, tainted) or _absolute(e.right, tainted)
+    if isinstance(e, ast.Call) and isinstance(e.func, ast.Name) and e.func.id in ("int", "min", "max", "abs"):
+        return any(_absolute(a, tainted) for a in e.args)
+    return False
+
+
+# ------------------------------------------------------------------------------------------------ DATA.SPLIT-GUARD
+
+def rule_splitter_guard(ctx):
+    """DATA.SPLIT-GUARD: a splitter of the table returns items for the empty string (`"".split(",") == [""]`), so no path may hand
+    an empty line to the line splitter: every call `<..splitter..>(line)` in the reader is blocked for line == "" by one of the
+    tests it is control-dependent on."""
+    p = ctx.p
+    env = module_env(p, "reader")
+    ff, entries, table = _splitter_table(p)
+    needed = None
+    if table is not None:
+        for key, (k, v, fn) in sorted(entries.items()):
+            if fn is None or isinstance(fn.node, ast.Lambda):
+                continue
+            rets = [s_.value for s_ in walk_shallow(fn.node) if isinstance(s_, ast.Return) and s_.value is not None]
+            prm = fn.params()
+            if len(rets) != 1 or len(prm) != 1:
+                continue
+            try:
+                out = fold(rets[0], lambda n_, prm=prm: "" if n_ == prm[0] else env(n_))
+            except NotConst:
+                continue
+            except Exception:  # noqa - outside the folder
+                continue
+            if isinstance(out, (list, tuple)) and len(out) > 0:
+                needed = key
+    if needed is None:
+        ctx.ok("DATA.SPLIT-GUARD", "reader.define_line_splitter#empty-line", ff, ff.node,
+               "no splitter of the table is known to return items for an empty line: no guard required", nontrivial=False)
+        return
+
+    def blocked(t, pol, var):
+        if isinstance(t, ast.BoolOp) and ((isinstance(t.op, ast.And) and pol) or (isinstance(t.op, ast.Or) and not pol)):
+            return any(blocked(v_, pol, var) for v_ in t.values)
+        if isinstance(t, ast.UnaryOp) and isinstance(t.op, ast.Not):
+            return blocked(t.operand, not pol, var)
+        try:
+            val = fold(t, lambda n_: "" if n_ == var else (_ for _ in ()).throw(NotConst(n_)))
+        except NotConst:
+            return False
+        except Exception:  # noqa
+            return False
+        return bool(val) != pol
+    n = 0
+    for q, fi in sorted(p.functions.items()):
+        if fi.module.name != "reader" or isinstance(fi.node, ast.Lambda):
+            continue
+        calls = [c for c in walk_shallow(fi.node) if isinstance(c, ast.Call) and len(c.args) == 1 and isinstance(c.args[0], ast.Name)
+                 and not c.keywords and "splitter" in (c.func.id if isinstance(c.func, ast.Name) else c.func.attr if isinstance(c.func, ast.Attribute) else "")
+                 and "define" not in ast.unparse(c.func)]
+        if not calls:
+            continue
+        cfg = build_cfg(p, fi)
+        cd = ControlDependence(cfg)
+        for c in calls:
+            var = c.args[0].id
+            st = c
+            while not isinstance(st, ast.stmt):
+                st = st._parent
+            nids = cfg.nodes_for(st)
+            if not nids:
+                continue
+            n += 1
+            site = "%s#splitter-call(%s)" % (q, var)
+            ok = False
+            for (tn, lab) in cd.transitive(nids[0]):
+                if cfg.nodes[tn].kind == "test" and blocked(cfg.nodes[tn].ast, lab.startswith("true"), var):
+                    ok = True
+            ctx.check(ok, "DATA.SPLIT-GUARD", site, fi, c, "`%s` is not reached with an empty line" % unparse(c),
+                      "`%s` can be reached with an empty line (no test on the way excludes %s == \"\"): the %s splitter returns "
+                      "an item for it, so a blank line inside a %s-delimited data section adds a phantom value and shifts what follows"
+                      % (unparse(c), var, needed, needed))
+    ctx.floor("DATA.SPLIT-GUARD", 2)
+
+
 # ------------------------------------------------------------------------------------------------ DATA.TOKENIZER / TRIM
 
 def rule_tokenizer(ctx):
@@ -808,7 +991,7 @@ def _splitter_table(p):
 
     def is_table(d):
         return isinstance(d, ast.Dict) and d.keys and all(isinstance(k, ast.Constant) and isinstance(k.value, str) for k in d.keys) \
-            and all(isinstance(v, (ast.Name, ast.Lambda)) for v in d.values)
+            and all(isinstance(v, (ast.Name, ast.Lambda)) or (isinstance(v, ast.Attribute) and v.attr == "findall") for v in d.values)
     table = None
     for sub in walk_shallow(ff.node):
         if is_table(sub):
@@ -824,6 +1007,8 @@ def _splitter_table(p):
     for k, v in zip(table.keys, table.values):
         if isinstance(v, ast.Name):
             fn = ff.nested.get(v.id) or ff.module.functions.get(v.id)
+        elif isinstance(v, ast.Attribute):
+            fn = None       # `<regex>.findall` stored as the splitter: handled by the caller
         else:
             fn = getattr(v, "_lambda_info", None) or next((f for f in p.functions.values() if f.node is v), None)
         out[k.value] = (k, v, fn)
@@ -884,10 +1069,15 @@ def rule_trim(ctx, trim=True):
         key = k.value
         site = "reader.define_line_splitter#%s" % key
         fn = entries[key][2]
-        if fn is None:
+        if fn is None and isinstance(v, ast.Attribute) and v.attr == "findall":
+            # the bound method `<regex>.findall` is the splitter: the same as a function returning <regex>.findall(line)
+            fn = ff
+            rets = [ast.fix_missing_locations(ast.copy_location(ast.Call(func=v, args=[ast.Name(id="line", ctx=ast.Load())], keywords=[]), v))]
+        elif fn is None:
             ctx.undecided("DATA.SPLIT", site, ff, v, "splitter %s is not a function defined in lasio/reader.py" % key)
             continue
-        rets = [s.value for s in walk_shallow(fn.node) if isinstance(s, ast.Return)] if not isinstance(fn.node, ast.Lambda) else [fn.node.body]
+        else:
+            rets = [s.value for s in walk_shallow(fn.node) if isinstance(s, ast.Return)] if not isinstance(fn.node, ast.Lambda) else [fn.node.body]
         if len(rets) != 1:
             # several ways to split one kind of line (a "fast path"): every one of them must satisfy the clauses below; that is
             # decided for the first form that does not
@@ -908,6 +1098,28 @@ def rule_trim(ctx, trim=True):
                       "engine does" % key,
                       "the %s splitter is `%s`: consecutive delimiters yield empty tokens (phantom columns), whereas the fast "
                       "engine treats any run of blanks/tabs as one separator" % (key, unparse(ret)))
+            if merged:
+                # an empty quoted cell ("" or '') is an item: a cell that is skipped shifts every later value of the line one column left
+                try:
+                    rgx_ = fold(ret.func.value, lambda n: local[n] if n in local else env(n))
+                except (NotConst, KeyError):
+                    rgx_ = None
+                if isinstance(rgx_, Regex) and ("\"" in rgx_.pattern or "'" in rgx_.pattern):
+                    missing = []
+                    for q_ in ("\"", "'"):
+                        if q_ not in rgx_.pattern:
+                            continue
+                        try:
+                            inc = rx.included(rx.DFA(re.escape(q_ * 2), 0), rx.DFA(rgx_.pattern, rgx_.flags))[0]
+                        except Exception:  # noqa - construct outside the DFA builder
+                            inc = None
+                        if inc is False:
+                            missing.append(q_ * 2)
+                    ctx.check(not missing, "DATA.SPLIT", site + ":empty-quoted", fn, ret,
+                              "an empty quoted cell is one item of the %s splitter" % key,
+                              "the %s item pattern /%s/ does not accept the empty quoted cell %s: it is skipped (or its quote pairs up "
+                              "with a later one) and the remaining values of the line move one column to the left" % (
+                                  key, rgx_.pattern, " or ".join(missing)))
         if key == "COMMA":
             ctx.check(positional, "DATA.SPLIT", site + ":positional", fn, ret,
                       "COMMA splitting is positional: every field, empty ones included, keeps its column",
